@@ -237,10 +237,17 @@ class FakeCtx:
         return FakeArray()
 
 
+class ProbeError(Exception):
+    """raised by a probe body on command (a synchronized function that fails)"""
+
+
 def new_lock(pid):
     th = tl.th
     th.gate(("adv",), "chk:sw")
-    lk = CtlM(f"M{pid}")
+    k = th.sch.created.get(pid, 0) + 1
+    th.sch.created[pid] = k
+    # distinct lock objects get distinct names (the model knows one process lock per creator)
+    lk = CtlM(f"M{pid}" if k == 1 else f"M{pid}#{k}")
     th.event = f"sw:{lk.name}"
     return lk
 
@@ -458,6 +465,7 @@ class Th(threading.Thread):
         self.accepts = ()
         self.wait_lock = None
         self.wait_data = False
+        self.did_first = False
         self.prog = []               # fsched: names of the real functions still to call
         self.results = []
         self.procobj = None
@@ -516,15 +524,20 @@ class Th(threading.Thread):
             sch.viol.append(f"overlap: thread {self.tid} (process {self.pid}) entered a synchronized "
                             f"function while thread(s) {others} are inside one")
         sch.depth[self.tid] += 1
+        self.call_consumed = False
+        self.ret_consumed = False
         try:
             while True:
-                cmd = self.gate(("adv", "wr", "rd", "call"))
-                if cmd[0] == "adv":
+                cmd = self.gate(("adv", "wr", "rd", "call", "exc"))
+                if cmd[0] in ("adv", "exc"):
                     if sch.depth[self.tid] == 1 and self.tid in sch.outq:
                         self.event = "x"
                         continue
-                    self.event = "ret"
                     self.ret_consumed = True
+                    if cmd[0] == "exc":
+                        self.event = "raise"
+                        raise ProbeError()
+                    self.event = "ret"
                     return
                 if cmd[0] == "wr":
                     if self.tid in sch.outq:
@@ -540,7 +553,11 @@ class Th(threading.Thread):
                     self.event = sch.term_take(self, c)
                 else:
                     self.call_consumed = True
-                    sch.vprocs[self.pid].probe()
+                    try:
+                        sch.vprocs[self.pid].probe()
+                    except ProbeError:
+                        pass   # handled here; this body may be told to raise in turn
+                    self.ret_consumed = False
         finally:
             sch.depth[self.tid] -= 1
 
@@ -575,7 +592,12 @@ class Th(threading.Thread):
                                 f"result: thread {self.tid} called {FN_NAMES[name]}() and got {res!r}; with the "
                                 f"terminal's replies delivered to their own callers it returns {exp}")
                     else:
-                        vp.probe()
+                        try:
+                            vp.probe()
+                        except ProbeError:
+                            pass
+                        self.call_consumed = False
+                        self.ret_consumed = False
                 else:
                     po = multiprocessing.Process(target=noop)
                     po._child_id = cmd[1]
@@ -628,6 +650,7 @@ class Sched:
         self.nextq = 0
         self.pend, self.repl = [], []   # undelivered / delivered reply parts (Chunk), FIFO
         self.outq = {}                  # tid -> [query, parts not yet read]
+        self.created = {}               # pid -> number of process locks it created
         self.expected = EXPECTED if real else {}
         TRACED.clear()
         self.vprocs[0] = VProc(self, 0, fake_tty=real)
@@ -701,7 +724,7 @@ class Sched:
         th = self.threads[t]
         if th.error:
             return "dead"
-        th.cmd = {"c": ("call",), "a": ("adv",), "w": ("wr",), "d": ("rd",),
+        th.cmd = {"c": ("call",), "a": ("adv",), "w": ("wr",), "d": ("rd",), "e": ("exc",),
                   "s": ("start", st[2] if len(st) > 2 else 0)}[st[0]]
         th.sem.release()
         self.wait()
@@ -763,43 +786,83 @@ class Sched:
         return "ok " + "|".join(evs) + " # " + summary, self.viol, errs
 
     # -- online generation of a schedule for the real query functions ------------------
-    def options(self):
-        """(token, step, blocked) of the step each thread can be given now"""
-        out = []
+    def options(self, rng=None, cfg=None):
+        """per thread: list of (token, step, blocked) it can be given now"""
+        cfg = cfg or {}
+        out = {}
         for th in self.threads:
             if th.error:
                 continue
             acc = th.accepts
+            t = th.tid
+            opts = []
             if acc == ("call", "start"):
-                if th.prog:
-                    out.append((f"c{th.tid}", ["c", th.tid], False))
-                continue
-            a = acc[0]
-            letter = {"call": "c", "adv": "a", "wr": "w", "rd": "d"}[a]
-            blocked = False
-            if th.wait_lock is not None and th.wait_lock.owner not in (None, th.tid):
-                blocked = True
-            if a == "rd" and not self.repl:
-                blocked = True
-            out.append((f"{letter}{th.tid}", [letter, th.tid], blocked))
+                if self.real:
+                    if th.prog:
+                        opts.append((f"c{t}", ["c", t], False))
+                elif th.pid not in self.vprocs:
+                    opts.append((f"c{t}", ["c", t], True))
+                else:
+                    first = cfg.get("first", {}).get(str(t))
+                    if first and not th.did_first:
+                        opts.append((f"s{t}.{first}", ["s", t, first], False))
+                    else:
+                        opts.append((f"c{t}", ["c", t], False))
+                        if self.nstarts < cfg.get("maxstarts", 3) and rng.random() < cfg.get("p_start", 0.1):
+                            c = rng.randrange(1, cfg.get("nproc", 1) + 1)
+                            opts = [(f"s{t}.{c}", ["s", t, c], False)]
+            elif "wr" in acc and "adv" in acc:
+                # the probe body
+                out_q = t in self.outq
+                bottom = self.depth[t] == 1
+                stuck = bottom and out_q
+                if out_q:
+                    opts.append((f"d{t}", ["d", t], not self.repl))
+                    opts.append((f"d{t}", ["d", t], not self.repl))
+                elif rng.random() < cfg.get("p_wr", 0.4):
+                    opts.append((f"w{t}", ["w", t], False))
+                if self.depth[t] < cfg.get("maxdepth", 2) and rng.random() < 0.35:
+                    opts.append((f"c{t}", ["c", t], False))
+                if not out_q or not bottom:
+                    if rng.random() < cfg.get("p_exc", 0.15):
+                        opts.append((f"e{t}", ["e", t], False))
+                    else:
+                        opts.append((f"a{t}", ["a", t], False))
+                elif stuck and not opts:
+                    opts.append((f"a{t}", ["a", t], True))
+            else:
+                a = acc[0]
+                letter = {"call": "c", "adv": "a", "wr": "w", "rd": "d"}[a]
+                blocked = False
+                if th.wait_lock is not None and th.wait_lock.owner not in (None, th.tid):
+                    blocked = True
+                if a == "rd" and not self.repl:
+                    blocked = True
+                opts.append((f"{letter}{t}", [letter, t], blocked))
+            if opts:
+                out[t] = opts
         return out
 
-    def generate(self, rng, maxsteps):
+    def generate(self, rng, maxsteps, cfg=None):
         toks, evs = [], []
         summary = ""
         stick = rng.choice([0.3, 0.6, 0.85, 0.95])
         p_rsp = rng.choice([0.15, 0.4, 0.8])
         p_bad = rng.choice([0.0, 0.03, 0.1])
         last = None
+        self.nstarts = 0
+        for th in self.threads:
+            th.did_first = False
         try:
             self.start_threads()
             for _ in range(maxsteps):
-                opts = self.options()
-                free = [o for o in opts if not o[2]]
-                stuck = [o for o in opts if o[2]]
-                if not opts and not self.pend:
+                per = self.options(rng, cfg)
+                free = {t: [o for o in os_ if not o[2]] for t, os_ in per.items()}
+                free = {t: v for t, v in free.items() if v}
+                stuck = [o for os_ in per.values() for o in os_ if o[2]]
+                if not per and not self.pend:
                     break
-                waiting = any(o[0][0] == "d" and o[2] for o in opts)
+                waiting = any(o[0][0] == "d" for o in stuck)
                 if self.pend and (not free or rng.random() < (p_rsp if waiting else 0.05)):
                     toks.append("r")
                     evs.append(self.command(["r"]))
@@ -807,11 +870,14 @@ class Sched:
                 if stuck and rng.random() < p_bad:
                     o = rng.choice(stuck)
                 elif free:
-                    same = [o for o in free if o[1][1] == last]
-                    o = same[0] if same and rng.random() < stick else rng.choice(free)
+                    t = last if last in free and rng.random() < stick else rng.choice(sorted(free))
+                    o = rng.choice(free[t])
                 else:
                     break
                 last = o[1][1]
+                if o[1][0] == "s":
+                    self.nstarts += 1
+                    self.threads[last].did_first = True
                 toks.append(o[0])
                 evs.append(self.command(o[1]))
             summary = self.summary()
@@ -819,6 +885,65 @@ class Sched:
             self.shutdown()
         errs = [f"thread {th.tid}: {th.error}" for th in self.threads if th.error]
         return toks, "ok " + "|".join(evs) + " # " + summary, self.viol, errs
+
+
+class ObsLock:
+    """a re-entrant lock that only counts (single-threaded observation of `lock_tty`)"""
+
+    def __init__(self):
+        self.count = 0
+
+    def __enter__(self):
+        self.count += 1
+        return self
+
+    def __exit__(self, *exc):
+        self.count -= 1
+        return False
+
+
+def run_deco(ops):
+    """create / lock_tty / call / drop short-lived callables with the REAL `lock_tty` of a fresh
+    execution of utils.py; a call reports whether the terminal lock is held inside it"""
+    mod = raw_copy()
+    lock = mod._tty_lock = ObsLock()
+
+    def make():
+        def f():
+            return "sync" if lock.count >= 2 else ("sync1" if lock.count == 1 else "plain")
+        return f
+
+    slots, decorated, outs, viol = {}, {}, [], []
+    for k, op in enumerate(ops):
+        kind, i = op[0], int(op[1:])
+        if kind == "n":
+            slots[i] = make()
+            decorated[i] = False
+            outs.append("new")
+        elif i not in slots:
+            outs.append("x")
+        elif kind == "d":
+            old = slots[i]
+            r = mod.lock_tty(old)
+            outs.append("same" if r is old else "wrap")
+            if r is old and not decorated[i]:
+                viol.append(f"unsync: op {k} ({op}): lock_tty(f) returned f itself for a function object that was "
+                            f"never decorated (id {id(old):#x})")
+            slots[i] = r
+            decorated[i] = True
+            del old, r
+        elif kind == "c":
+            o = slots[i]()
+            outs.append(o)
+            if decorated[i] and o != "sync":
+                viol.append(f"unsync: op {k} ({op}): a callable returned by lock_tty() ran without the terminal "
+                            f"lock held (lock count inside the call: {lock.count})")
+        elif kind == "x":
+            del slots[i]
+            outs.append("drop")
+        else:
+            outs.append("?")
+    return {"res": "ok " + "|".join(outs), "viol": viol, "errs": []}
 
 
 EXPECTED: dict = {}
@@ -986,6 +1111,13 @@ def main():
                 sch = Sched(req["procs"], {}, real=True, progs=req["progs"])
                 toks, res, viol, errs = sch.generate(_r.Random(req["seed"]), req.get("maxsteps", 400))
                 resp = {"steps": toks, "res": res, "viol": viol, "errs": errs, "expected": EXPECTED}
+            elif req["op"] == "sgen":
+                import random as _r
+                sch = Sched(req["procs"], req.get("flav", {}))
+                toks, res, viol, errs = sch.generate(_r.Random(req["seed"]), req.get("maxsteps", 120), req.get("cfg", {}))
+                resp = {"steps": toks, "res": res, "viol": viol, "errs": errs}
+            elif req["op"] == "deco":
+                resp = run_deco(req["ops"])
             elif req["op"] == "noop":
                 resp = {}
             else:
